@@ -24,6 +24,9 @@ CHECKS["C15"] = dict(engine="symx", technique="symbolic execution (symx/z3) of t
 CHECKS["C07"] = dict(engine="symx", technique="symbolic execution (symx/z3) of the real parse_operations, operationId de-duplication, EndpointsEmitter.emit grouping and ClientVisitor tag tuples; operationIds, path strings, tags and the status key are symbolic",
    text="For documents of 2-3 operations: operationIds / path strings up to 2 (quick) / 3 (thorough) symbolic characters under all three naming strategies, tags up to 2 / 3-4 symbolic characters over 'aAbB1-_ .é中' in four tag-assignment shapes, and the response key as int or str for every status 100..599 - z3 decides every path: operations out == operations in, method names valid and distinct, no two tag groups write the same module, every (operation, tag) pair is served by a written client, APIClient derives exactly the written (class, module) pairs.",
    note="Trusts z3 and the symx instrumentation (every path witness re-run on the uninstrumented code). Rendering, file I/O and pathlib are recording stubs; a raised exception counts as visible failure. More than 3 operations, longer names and YAML parsing itself are outside the claim.", ref="§2 C07")
+CHECKS["C13"] = dict(engine="symx", technique="symbolic execution (symx/z3) of the real EndpointsEmitter.emit, MocksEmitter.emit/_group_operations_by_tag and ClientVisitor.visit with symbolic tags; routing and naming half of the property",
+   text="For 1-3 operations in five tag-assignment shapes with tags up to 2 (quick) / 3 (thorough) symbolic characters over 'aAbB1-_ .é中', z3 decides every path: each endpoint client has exactly one mock with the same (class, module) and the same operation set, mock files never overwrite each other, and MockAPIClient is assembled from exactly APIClient's tag tuples. Parameter-by-parameter signature equality of client / Protocol / mock is NOT decided (no symbolic input to range over; stated in DESIGN.md).",
+   note="Partial claim: routing and naming only. Rendering, file I/O and pathlib are recording stubs; the Protocol is emitted from the same operation list as its client by construction of emit_endpoint_client_class.", ref="§2 C13")
 NA = {
  "C01": "not applicable to solver-based checking: the observation is compile()/import of a whole emitted file tree for a whole symbolic document; no kernel small enough to encode (identifier and lexical kernels are decided under C20/C15)",
  "C09": "not applicable: quantifies over hash seeds, processes, clocks and existing file trees; the deciding observation is byte equality of directory trees - nothing for a solver to decide",
